@@ -259,6 +259,32 @@ def gen_content(rng, kind, w, h, sbypp):
         for _ in range(rng.randint(1, max(1, n // 20))):
             px[rng.randrange(n)] = rng.choice(cols[1:])
         return px
+    if kind.startswith("rle"):
+        # per ZRLE tile (64x64) a flat sequence of maximal runs whose lengths sit on the run-length
+        # byte boundaries (len-1 = 255k-1, 255k, 255k+1) plus short fillers; runs span rows of the tile.
+        # "rle<k>" uses k colours; with k >= 128 a block of k distinct single pixels forces plain RLE
+        k = int(kind[3:])
+        cols = palette(rng, sbypp, max(2, k))
+        lens = [254, 255, 256, 257, 509, 510, 511, 512, 764, 765, 766, 767, 1019, 1020, 1021, 1022, 1276, 1531, 2041, 4081]
+        px = [0] * n
+        for ty in range(0, h, 64):
+            for tx in range(0, w, 64):
+                tw, th = min(64, w - tx), min(64, h - ty)
+                m = tw * th
+                seq, last = [], None
+                while len(seq) < m:
+                    L = rng.choice(lens) if rng.random() < 0.6 else rng.randint(1, 6)
+                    c = rng.choice(cols)
+                    while c == last and len(cols) > 1:
+                        c = rng.choice(cols)
+                    last = c
+                    seq += [c] * L
+                seq = seq[:m]
+                if k >= 128 and m > 2 * len(cols):
+                    seq[m - len(cols):] = cols
+                for j in range(th):
+                    px[(ty + j) * w + tx:(ty + j) * w + tx + tw] = seq[j * tw:(j + 1) * tw]
+        return px
     if kind.startswith("tilemix"):
         # per-tile classes over a small shared palette: neighbouring tiles often share background /
         # foreground (hextile bg/fg carry-over, raw fall-back in between, zrle palette classes)
@@ -288,7 +314,7 @@ def gen_content(rng, kind, w, h, sbypp):
 
 KINDS = ["flat", "noise", "pal2", "pal3", "pal4", "pal5", "pal16", "pal17", "pal127", "pal128", "pal129",
          "runs2", "runs3", "runs5", "runs16", "runs17", "runs127", "runs128", "runs200", "hgrad", "vgrad", "rects2", "rects3",
-         "rects8", "checker", "stripes", "sparse", "tilemix16", "tilemix16", "tilemix64", "tilemix8"]
+         "rects8", "checker", "stripes", "sparse", "tilemix16", "tilemix16", "tilemix64", "tilemix8", "rle2", "rle5", "rle140"]
 
 SIZES_SMALL = [(1, 1), (1, 2), (2, 1), (3, 3), (1, 17), (17, 1), (15, 15), (16, 16), (17, 17), (16, 1), (31, 33), (32, 32),
                (33, 31), (47, 49), (48, 48), (49, 47), (63, 65), (64, 64), (65, 63), (100, 7), (7, 100), (128, 20),
@@ -314,11 +340,17 @@ def case_lines(k, label, w, h, sbypp, cfmt, enc, levels, updates, corre=None):
     trs = []
     eff = sf if cfmt is None else cfmt
     encs_used = [enc]
+    cur_spec = [enc] + list(levels)
+    upd_spec = []
     for up in updates:
         px, rect = up[0], up[1]
         if len(up) > 2 and up[2]:
-            L.append("enc %s - -" % up[2])
-            encs_used.append(up[2])
+            sp = up[2].split()
+            sp += ["-"] * max(0, 3 - len(sp))
+            L.append("enc " + " ".join(sp))
+            encs_used.append(sp[0])
+            cur_spec = sp
+        upd_spec.append(tuple(cur_spec))
         fbhex = b"".join(p.to_bytes(sbypp, "little") for p in px).hex()
         tr = translate_screen(px, sf, eff)
         L.append("fb " + fbhex)
@@ -327,7 +359,7 @@ def case_lines(k, label, w, h, sbypp, cfmt, enc, levels, updates, corre=None):
         trs.append((tr, rect))
     effc = eff if eff.tc else BGR233
     meta = dict(w=w, h=h, sbypp=sbypp, cbypp=effc.bpp // 8, enc=enc, levels=levels, trs=trs, label=label,
-                cfmt=effc.tup(), corre=corre, updates=updates, cfmt_obj=cfmt, encs=encs_used)
+                cfmt=effc.tup(), corre=corre, updates=updates, cfmt_obj=cfmt, encs=encs_used, upd_spec=upd_spec)
     return L, meta
 
 
@@ -364,7 +396,7 @@ def gen_cases(ctx, encs):
     TARGET = {"hextile": ["tilemix16"] * 5 + ["tilemix8", "rects3", "sparse", "pal2", "pal3"],
               "rre": ["rects2", "rects3", "rects8", "sparse", "tilemix8", "stripes", "pal2", "runs3"],
               "corre": ["rects2", "rects3", "rects8", "sparse", "tilemix8", "tilemix16", "stripes", "pal2", "runs3"],
-              "zrle": ["tilemix64"] * 3 + ["tilemix16", "pal2", "pal3", "pal5", "pal16", "pal17", "pal127", "pal128",
+              "zrle": ["tilemix64"] * 3 + ["rle2", "rle3", "rle5", "rle20", "rle140", "rle200"] * 2 + ["tilemix16", "pal2", "pal3", "pal5", "pal16", "pal17", "pal127", "pal128",
                                            "runs2", "runs16", "runs127", "runs200", "noise", "hgrad"],
               "tight": ["tilemix16", "tilemix64", "rects3", "pal2", "pal3", "pal16", "runs5", "hgrad", "noise", "flat", "sparse"]}
     MULTI = [(33, 31), (47, 49), (48, 48), (49, 47), (63, 65), (64, 64), (65, 63), (100, 7), (7, 100), (128, 20),
@@ -414,6 +446,45 @@ def gen_cases(ctx, encs):
                 sbypp = rng.choice([2, 4])
                 px = gen_content(rng, "pal%d" % kk, w, h, sbypp)
                 add("tight:limit:pal%d" % kk, w, h, sbypp, None, "tight", [(px, (0, 0, w, h))], (rng.choice(["-", "1", "9"]), "-", "-"))
+    # 2e. run lengths across every 255k+1 boundary, plain and palette RLE, all pixel sizes, runs spanning rows
+    if "zrle" in encs:
+        for i in range(24 if quick else 400):
+            sbypp = rng.choice([1, 2, 4])
+            w, h = rng.choice([(64, 64), (64, 20), (32, 64), (17, 64), (64, 128), (100, 70), (128, 64), (51, 33), (8, 64)])
+            kk = rng.choice([2, 3, 5, 20, 100, 140, 200])
+            fm = rng.choice([None, None, Fmt(32, 24, 0, 1, 255, 255, 255, 16, 8, 0), Fmt(16, 16, 0, 1, 31, 63, 31, 11, 5, 0),
+                             Fmt(16, 16, 1, 1, 31, 63, 31, 11, 5, 0), Fmt(8, 8, 0, 1, 7, 7, 3, 0, 3, 6), Fmt(32, 32, 1, 1, 255, 255, 255, 0, 8, 16)])
+            add("zrle:rle%d" % kk, w, h, sbypp, fm, "zrle", [(gen_content(rng, "rle%d" % kk, w, h, sbypp), (0, 0, w, h))])
+    # 2f. sessions that change compression / quality levels (and encodings) between updates; the peer
+    #     keeps ONE inflate state per stream (reset only by the reset bits), as a specification client does
+    if "tight" in encs:
+        for i in range(30 if quick else 500):
+            sbypp = rng.choice([2, 4, 4])
+            w, h = rng.choice([(40, 24), (64, 48), (100, 30), (33, 31), (80, 80), (128, 20)])
+            fm = rng.choice([None, None, Fmt(32, 24, 0, 1, 255, 255, 255, 16, 8, 0), Fmt(16, 16, 0, 1, 31, 63, 31, 11, 5, 0)])
+            with_q = rng.random() < 0.7
+
+            def spec():
+                e = "tight" if rng.random() < 0.8 else rng.choice(["zlib", "zrle", "hextile", "raw"])
+                lv = rng.choice(["1", "2", "3", "5", "9", "-"])
+                q = rng.choice(["1", "5", "9"]) if (with_q and e == "tight") else "-"
+                return "%s %s %s" % (e, lv, q)
+            first = spec().split()
+            ups = []
+            for j in range(rng.randint(3, 8)):
+                kind = rng.choice(["pal2", "pal3", "pal5", "pal16", "flat", "rects3", "sparse", "stripes", "tilemix16", "noise", "hgrad"])
+                ups.append((gen_content(rng, kind, w, h, sbypp), (0, 0, w, h) if rng.random() < 0.7 else pick_rect(rng, w, h),
+                            spec() if j > 0 else None))
+            add("tight:levels", w, h, sbypp, fm, first[0], ups, tuple(first[1:]))
+    if "zlib" in encs:
+        for i in range(6 if quick else 100):
+            sbypp = rng.choice([1, 2, 4])
+            w, h = rng.choice([(40, 24), (64, 48), (33, 31)])
+            ups = []
+            for j in range(rng.randint(3, 6)):
+                ups.append((gen_content(rng, rng.choice(KINDS), w, h, sbypp), pick_rect(rng, w, h),
+                            ("%s %s -" % (rng.choice(["zlib", "zlib", "zrle"]), rng.choice(["0", "1", "5", "9", "-"]))) if j > 0 else None))
+            add("zlib:levels", w, h, sbypp, None, "zlib", ups, (rng.choice(["1", "9", "-"]), "-"))
     # 2c. TightPng (SAMPLED: PNG container decoded by libpng in the harness, exact comparison)
     for i in range(6 if quick else 60):
         w, h = rng.choice(SIZES_SMALL)
@@ -508,7 +579,8 @@ def precheck_case(meta, obs_lines):
     feats = dict(enc=meta["enc"], sbpp=meta["sbypp"] * 8, cbpp=meta["cbypp"] * 8, w=meta["w"], h=meta["h"],
                  fmt_class=fmt_class("zrle" if "zrle" in meta.get("encs", [meta["enc"]]) else meta["enc"], meta["cfmt"]),
                  line_exceeds_update_buf=(meta["w"] * meta["cbypp"] > 32768),
-                 tight_level0=(meta["enc"] == "tight" and meta["levels"][0] == "0"))
+                 tight_level0=any(sp[0] == "tight" and len(sp) > 1 and sp[1] == "0" and (len(sp) < 3 or sp[2] == "-")
+                                  for sp in meta.get("upd_spec", [(meta["enc"],) + tuple(meta["levels"])])))
     if len(ups) != len(meta["trs"]):
         feats["what"] = "crash"
         return "implementation produced %d update observations for %d requests (crash?)" % (len(ups), len(meta["trs"])), feats, [], []
@@ -533,6 +605,14 @@ def precheck_case(meta, obs_lines):
                     feats["what"] = "cover"
                     return "update %d: rectangles overlap inside the requested area" % ui, feats, [], []
                 row[x - rx:x - rx + w] = one
+            spec_now = meta["upd_spec"][ui] if "upd_spec" in meta and ui < len(meta["upd_spec"]) else None
+            has_quality = bool(spec_now and len(spec_now) > 2 and spec_now[2] != "-")
+            if enc == 7 and len(b) > 12 and (b[12] >> 4) == 9:
+                if has_quality:
+                    meta["jpeg_rects"] = meta.get("jpeg_rects", 0) + 1     # lossy by request: sampled elsewhere
+                    continue
+                feats["what"] = "jpeg-unrequested"
+                return "update %d: JPEG rectangle although the client set no quality level" % ui, feats, [], []
             if enc in DECODABLE:
                 f = meta["cfmt"]
                 if feats["fmt_class"] == "depth-gt-24" and enc == 16:
@@ -638,16 +718,30 @@ def shrink_case(case, fails):
     L, meta = case
     if len(meta["updates"]) != 1:
         # first try each update alone
-        cur_enc = meta["enc"]
-        for up in meta["updates"]:
+        for ui, up in enumerate(meta["updates"]):
             px, rect = up[0], up[1]
-            if len(up) > 2 and up[2]:
-                cur_enc = up[2]
-            c = case_lines(0, meta["label"], meta["w"], meta["h"], meta["sbypp"], meta["cfmt_obj"], cur_enc,
-                           meta["levels"] if cur_enc == meta["enc"] else ("-", "-"), [(px, rect)], meta["corre"])
+            sp = meta["upd_spec"][ui]
+            c = case_lines(0, meta["label"], meta["w"], meta["h"], meta["sbypp"], meta["cfmt_obj"], sp[0],
+                           tuple(sp[1:]), [(px, rect)], meta["corre"])
             if fails(c):
                 return shrink_case(c, fails)
-        return case
+        # the failure needs the history: drop earlier updates while it still fails
+        ups = list(meta["updates"])
+        specs = list(meta["upd_spec"])
+
+        def build(us, sps):
+            full = [(u[0], u[1], " ".join(sp)) for u, sp in zip(us, sps)]
+            return case_lines(0, meta["label"], meta["w"], meta["h"], meta["sbypp"], meta["cfmt_obj"], sps[0][0],
+                              tuple(sps[0][1:]), [(full[0][0], full[0][1])] + full[1:], meta["corre"])
+        changed = True
+        while changed and len(ups) > 2:
+            changed = False
+            for drop in list(range(len(ups) - 1, -1, -1)):
+                c = build(ups[:drop] + ups[drop + 1:], specs[:drop] + specs[drop + 1:])
+                if fails(c):
+                    ups, specs, changed = ups[:drop] + ups[drop + 1:], specs[:drop] + specs[drop + 1:], True
+                    break
+        return build(ups, specs) if len(ups) != len(meta["updates"]) else case
     px, rect = meta["updates"][0][0], meta["updates"][0][1]
     w, h = meta["w"], meta["h"]
     cur = case
@@ -929,6 +1023,7 @@ def meta_from_lines(lines):
             meta["cfmt"] = tuple(v)
         elif p[0] == "enc":
             meta.setdefault("encs", []).append(p[1])
+            meta["_cur_spec"] = tuple(p[1:] + ["-"] * max(0, 4 - len(p)))
             if "enc" not in meta:
                 meta["enc"] = p[1]
                 meta["levels"] = tuple(p[2:]) if len(p) > 2 else ("-", "-")
@@ -936,4 +1031,5 @@ def meta_from_lines(lines):
             tr = bytes.fromhex(p[3])
         elif p[0] == "upd":
             meta["trs"].append((tr, tuple(map(int, p[1:5]))))
+            meta.setdefault("upd_spec", []).append(meta.get("_cur_spec", ("raw", "-", "-")))
     return meta
